@@ -283,6 +283,10 @@ def r3_rejections_name_option(ctx, rep):
         rep.ob(f"{q} names the file in conversion errors", ok, "", py.nloc(fn))
 
 
+def target_names_of(t: ast.AST):
+    return astq.target_names(t)
+
+
 def r5_unknown_keys(ctx, rep):
     py = ctx.py
     m = py.func("settings.convert_types_from_metapreprocessor")
@@ -311,12 +315,25 @@ def r5_unknown_keys(ctx, rep):
     pa = py.func("__init__.parse_arguments")
     loops = [n for n in ast.walk(pa) if isinstance(n, ast.For) and "tomllib.loads" in ast.unparse(n.iter)]
     if loops:
-        t = ast.unparse(loops[0])
-        guarded = re.search(r"if key (not )?in|hasattr\(proj_data, key\)|fields\(", t) is not None
+        lp = loops[0]
+        keyvar = target_names_of(lp.target)[0] if target_names_of(lp.target) else "key"
+
+        def atom(n):
+            # "the key is an option of the schema": `key in field_types` / `key not in ...` / hasattr(proj_data, key)
+            if isinstance(n, ast.Compare) and len(n.ops) == 1 and isinstance(n.ops[0], (ast.In, ast.NotIn)) and \
+                    ast.unparse(n.left) == keyvar:
+                return ("known", isinstance(n.ops[0], ast.In))
+            if isinstance(n, ast.Call) and call_name(n) == "hasattr" and len(n.args) == 2 and ast.unparse(n.args[1]) == keyvar:
+                return ("known", True)
+            return None
+        evs = astq.trace_block([lp], pa)
+        stores = [e for e in evs if (e.kind == "call" and call_name(e.node) == "setattr") or
+                  (e.kind == "assign" and e.target and "[" in e.target)]
+        guarded = bool(stores) and all(astq.path_implies(e, atom, {"known": True}) is True for e in stores)
         rep.ob("--config: unknown keys warned and dropped", guarded,
                "keys are checked against the schema" if guarded else
                "`setattr(proj_data, key, value)` stores any key silently (no warning, no type conversion)",
-               py.nloc(loops[0]))
+               py.nloc(lp))
     else:
         rep.ob("--config: unknown keys warned and dropped", "convert_types_from_metapreprocessor" in ast.unparse(pa)
                or "field_types" in ast.unparse(pa), "config values go through the schema-aware conversion", py.nloc(pa))
